@@ -353,7 +353,12 @@ def build(spec):
                     sig.append('%s%s = __D%d' % (pname, ann, i))
                 else:
                     sig.append('%s%s' % (pname, ann))
-                body.append('    kw[%r] = %s; self.%s = %s' % (pname, pname, pname, pname))
+                if c.get('props'):
+                    # the attribute lives under another name and is offered through a property of the parameter's name
+                    body.append('    kw[%r] = %s; self._stored_%s = %s' % (pname, pname, pname, pname))
+                    ns[pname] = property(lambda self, _n='_stored_' + pname: getattr(self, _n))
+                else:
+                    body.append('    kw[%r] = %s; self.%s = %s' % (pname, pname, pname, pname))
             if c.get('extra'):
                 g['OrderedDict'] = collections.OrderedDict
                 anydef = any(len(p) > 2 for p in params)
@@ -385,6 +390,13 @@ def build(spec):
             src = 'def __init__(%s) -> None:\n%s\n' % (', '.join(sig), '\n'.join(body))
             exec(src, g)
             ns['__init__'] = g['__init__']
+            if c.get('slots'):
+                # no instance __dict__: attributes are slot descriptors on the class
+                inherited = set()
+                for base in bases:
+                    for k in base.__mro__:
+                        inherited.update(getattr(k, '__slots__', ()))
+                ns['__slots__'] = tuple(n for n in [p[0] for p in params] + ['_kw', '_yatiml_extra'] if n not in inherited)
             ns['__eq__'] = _eq
             ns['__repr__'] = _repr
             ns['__hash__'] = None
